@@ -17,9 +17,10 @@ RUNPY = os.path.join(HERE, "run.py")
 
 TIERS = {
     # property: tier -> (runs, wall budget seconds for the main batch, hash-seed pair fraction)
-    "C20": {"quick": (2000, 120, 0.05), "thorough": (60000, 2400, 0.5)},
-    "C17": {"quick": (4000, 60, 0.05), "thorough": (150000, 1500, 0.2)},
-    "C15": {"quick": (600, 80, 0.05), "thorough": (15000, 1500, 0.2)},
+    # the wall budget is a safety net (a loaded machine takes longer instead of silently running fewer seeds)
+    "C20": {"quick": (2000, 600, 0.05), "thorough": (60000, 5400, 0.5)},
+    "C17": {"quick": (4000, 600, 0.05), "thorough": (150000, 5400, 0.2)},
+    "C15": {"quick": (600, 600, 0.05), "thorough": (15000, 5400, 0.2)},
 }
 SECOND_HASHSEED = "4242"
 
@@ -274,6 +275,22 @@ def match_known(v, plan, known):
     return None
 
 
+def _sweep_old_scratch(max_age_s=6 * 3600):
+    """scratch of earlier (killed) checks and old replay files do not pile up"""
+    now = time.time()
+    for sub in ("work", "replays"):
+        base = os.path.join(OUT, sub)
+        if not os.path.isdir(base):
+            continue
+        for name in os.listdir(base):
+            p = os.path.join(base, name)
+            try:
+                if now - os.path.getmtime(p) > max_age_s:
+                    shutil.rmtree(p, ignore_errors=True) if os.path.isdir(p) else os.remove(p)
+            except OSError:
+                pass
+
+
 def cmd_check(argv):
     prop = argv[0]
     tier = os.environ.get("VERIF_TIER", "quick")
@@ -290,6 +307,7 @@ def cmd_check(argv):
     work = os.path.join(OUT, "work", f"{prop}-{tier}-{os.getpid()}")
     shutil.rmtree(work, ignore_errors=True)
     os.makedirs(work)
+    _sweep_old_scratch()
     log(f"check {prop} tier={tier} VERIF_SEED={vseed} runs={n} procs={procs} budget={budget}s source={os.environ.get('VERIF_REPO_SRC', '/repo/src')}")
     deadline = time.time() + budget
     # main batch under hash seed 0, pair batch (a seeded subset) under a second hash seed
@@ -319,6 +337,12 @@ def cmd_check(argv):
         if ra is None:
             continue
         pair_checked += 1
+        if prop == "C15":
+            # C15 leaves node labels free ("up to a renaming of nodes"): results may legitimately depend on set order;
+            # the pair batch still checks that the SCHEDULE is independent of the hash seed
+            if ra["sched"] != rb["sched"]:
+                harness.append(f"schedule digest of run {i} differs between hash seeds (harness nondeterminism)")
+            continue
         if ra["sched"] != rb["sched"]:
             harness.append(f"schedule digest of run {i} differs between hash seeds (harness nondeterminism)")
         elif ra["resd"] != rb["resd"] and o4_confirmed >= 3:
@@ -328,8 +352,9 @@ def cmd_check(argv):
         elif ra["resd"] != rb["resd"]:
             o4_confirmed += 1
             violations.append(({"property": prop, "oracle": "O4", "step": "-", "op": "run", "sub": "", "kind": "hashseed-dependent-result",
-                                "detail": f"run {i} (seed {ra['seed']}) gives different results under PYTHONHASHSEED=0 and {SECOND_HASHSEED}"},
-                               None, ra["seed"]))
+                                "detail": f"run {i} (seed {ra['seed']}) gives different results under PYTHONHASHSEED=0 and {SECOND_HASHSEED}",
+                                "run_index": i, "verif_seed": vseed},
+                               regenerate_plan(prop, ra["seed"]), ra["seed"]))
     for i, r in sorted(runsA.items()):
         for v in r.get("violations", []):
             violations.append((v, r.get("plan"), r["seed"]))
@@ -370,7 +395,7 @@ def cmd_check(argv):
     def _do(job):
         sg, items, v, plan, seed, do_shrink = job
         path = None
-        if plan is not None and do_shrink:
+        if plan is not None and do_shrink and v["oracle"] != "O4":
             path = minimise_and_write(prop, plan, v, seed, work_dir)
         if path is None:
             path = write_replay_unshrunk(prop, v, plan, seed)
@@ -394,9 +419,19 @@ def cmd_check(argv):
     log(f"violating_runs={viol_runs} of {len(runsA)}")
     log(f"done: runs={agg['runs']}/{n} steps={agg['steps']} nontrivial={len(agg['share_sigs'])} faults={agg['faults_fired']} "
         f"pairs={pair_checked} new_violations={len(new)} known={len(known_hits)} wall={wall:.1f}s exit={exit_code}")
-    if exit_code == 0:
-        shutil.rmtree(work, ignore_errors=True)
+    shutil.rmtree(work, ignore_errors=True)       # replay files live in out/replays, nothing else is kept
     return exit_code
+
+
+def regenerate_plan(prop, seed):
+    """plans are a pure function of (property, seed): an O4 replay file carries the plan like every other one"""
+    try:
+        p = subprocess.run([PY, RUNPY, "genplan", prop, str(seed)], capture_output=True, text=True, timeout=120,
+                           env=dict(os.environ, PYTHONHASHSEED="0"))
+        line = next((l for l in p.stdout.splitlines() if l.startswith("PLAN ")), None)
+        return json.loads(line[5:]) if line else None
+    except Exception:
+        return None
 
 
 def confirm_hashseed_difference(prop, i, vseed):
@@ -423,7 +458,7 @@ def minimise_and_write(prop, plan, v, seed, work):
     from .shrink import signature
     os.makedirs(os.path.join(OUT, "replays"), exist_ok=True)
     sig = signature(v)
-    name = f"{prop}-{seed}-{digest(sig)[:8]}.json"
+    name = f"{prop}-{seed}-{digest(sig)[:8]}-{digest(os.environ.get('VERIF_REPO_SRC', '/repo/src'))[:4]}.json"
     path = os.path.join(OUT, "replays", name)
     job = os.path.join(work, "shrink-" + name)
     json.dump({"plan": plan, "sig": sig, "violation": v, "seed": seed, "out": path}, open(job, "w"))
@@ -445,7 +480,7 @@ def minimise_and_write(prop, plan, v, seed, work):
 def write_replay_unshrunk(prop, v, plan, seed):
     from .shrink import signature
     os.makedirs(os.path.join(OUT, "replays"), exist_ok=True)
-    path = os.path.join(OUT, "replays", f"{prop}-{seed}-{digest(signature(v))[:8]}-unshrunk.json")
+    path = os.path.join(OUT, "replays", f"{prop}-{seed}-{digest(signature(v))[:8]}-{digest(os.environ.get('VERIF_REPO_SRC', '/repo/src'))[:4]}-unshrunk.json")
     json.dump(replay_doc(prop, seed, plan, v, 0), open(path, "w"), indent=1)
     return path
 
@@ -481,6 +516,25 @@ def cmd_replay(argv):
         log("replay file carries no plan (cross-process violation): re-run the check with the same VERIF_SEED")
         return 2
     cli.load_ops(plan["property"])
+    if doc["signature"][1] == "O4":
+        # a hash-seed dependence is replayed by running the recorded plan in two fresh interpreters
+        from . import canon
+        outs = []
+        for hs in ("0", SECOND_HASHSEED):
+            p = subprocess.run([PY, RUNPY, "runplan", os.path.abspath(argv[0])], env=dict(os.environ, PYTHONHASHSEED=hs),
+                               capture_output=True, text=True, timeout=900)
+            line = next((l for l in p.stdout.splitlines() if l.startswith("RUNJSON ")), None)
+            if line is None:
+                log("HARNESS-ERROR replay of a hash-seed violation produced no result:", (p.stdout + p.stderr)[-500:])
+                return 2
+            outs.append(canon.dec(json.loads(line[len("RUNJSON "):])))
+        dff = canon.diff(outs[0], outs[1])
+        if dff:
+            log("  O4", dff[:300])
+            log(f"VIOLATION property={doc['property']} replay={os.path.abspath(argv[0])}")
+            return 1
+        log("replay: recorded violation did not reappear")
+        return 0
     res = isolate.execute(plan)          # no PRNG is consulted: every choice is in the file
     if "-v" in argv:
         for r in res["records"]:
